@@ -126,6 +126,21 @@ func (ex *Exec) modLHS(m *ModSet, l ast.Expr) {
 		if !ok {
 			return
 		}
+		// xs[i].f with xs a slice of structs: only the components of f
+		if ix, ok := unparen(x.X).(*ast.IndexExpr); ok {
+			if sl, ok := ex.typeOf(ix.X).Underlying().(*types.Slice); ok {
+				if off, n, ok := compRange(sl.Elem(), sel.Index()); ok {
+					cs := flatten(sl.Elem())
+					for k := off; k < off+n; k++ {
+						name := elemHeapName(sl.Elem(), cs[k])
+						markRefHolding(name, cs[k], true)
+						m.heaps[name] = SArr(SInt, SArr(SInt, cs[k].Sort))
+						m.locs[name] = append(m.locs[name], ix.X)
+					}
+					return
+				}
+			}
+		}
 		// direct p.f with p a pointer-valued expression
 		if len(sel.Index()) == 1 {
 			if p, ok := ex.typeOf(x.X).Underlying().(*types.Pointer); ok {
